@@ -2,3 +2,4 @@ import Adc.Syntax
 import Adc.Canon
 import Adc.Steps
 import Adc.Wick
+import Adc.Indices
